@@ -84,7 +84,7 @@ SPEC = dict(
         "(duplicate_is_refused_and_harmless): read as satisfying the property (reported as protocol error to the peer, bytes exact)",
     ],
     level_text="Theorems for every file, block size, receiver device and channel history: success implies the device holds identical "
-               "bytes (with hash and size announced: against any channel incl. forgeries; without hash: by sequence numbers + size "
+               "bytes (with the hash announced: every device, against any channel incl. forgeries; without hash: by sequence numbers + size "
                "against any non-altering channel, up to 65536 blocks); the honest run succeeds for EVERY size and block size; a single "
                "lost/reordered/mislabelled/truncated block is never reported as success (up to 65536 blocks, any continuation) AND, "
                "with the honest remainder delivered and the inactivity interval elapsed, BOTH jobs are finished, nothing is pending and "
